@@ -65,6 +65,8 @@ func newSandbox(parent string, i int) *sandbox {
 	must(os.MkdirAll(filepath.Join(root, "outside", "dir"), 0o755))
 	must(os.MkdirAll(filepath.Join(root, "systmp"), 0o755))
 	must(os.WriteFile(filepath.Join(root, "outside", "victim"), []byte("outside-victim"), 0o644))
+	must(os.MkdirAll(filepath.Join(root, "p1", "p2", "wd-backup"), 0o755))
+	must(os.WriteFile(filepath.Join(root, "p1", "p2", "wd-backup", "victim"), []byte("sibling-backup-victim"), 0o644))
 	must(os.WriteFile(filepath.Join(root, "p1", "victim"), []byte("uncle-victim"), 0o644))
 	must(os.WriteFile(filepath.Join(root, "p1", "p2", "victim"), []byte("sibling-victim"), 0o644))
 	must(os.WriteFile(filepath.Join(sb.cwd, "cfile"), []byte("cwd-file"), 0o644))
@@ -353,7 +355,8 @@ func runC11(seed int64, tier string, sc *Script) map[string]any {
 			}
 			paths = append(paths, string(b))
 		}
-		paths = append(paths, "/r/wd", "/r/wd/x", "/r/wdx", "/r", "/", "/r/wd/../wd/y", "/r/wd/../../r/wd/z")
+		paths = append(paths, "/r/wd", "/r/wd/x", "/r/wdx", "/r", "/", "/r/wd/../wd/y", "/r/wd/../../r/wd/z",
+			"../wd-backup/victim", "../wdx", "/r/wd-backup/victim", "a/../../wd2/x", "../wd", "../wd/x", "..wd", "..a/b", "a/..b")
 		for _, p := range paths {
 			sc.Op(filepath.Clean(p), "pf clean s=%s", p)
 			got, err := st.VerifResolveWritePath(p)
@@ -373,7 +376,8 @@ func runC11(seed int64, tier string, sc *Script) map[string]any {
 	runOne("dir-chain", []tarEnt{{'d', "d/s", ""}, {'s', "d/s/l1", ".."}, {'s', "d/s/l2", "l1/../.."}, {'r', "d/s/l2/x", ""}}, "")
 	runOne("dir-chain-named", []tarEnt{{'d', "d/s", ""}, {'s', "d/s/l1", ".."}, {'s', "d/s/l2", "l1/../.."}}, "d/s/l2/x")
 	// named blobs with hostile titles
-	for _, n := range []string{"a", "a/b", "../x", "a/../../x", "a/../b", "./a", "a//b", "ABS:outside/newfile", "ABS:p1/p2/wd/inside", "..", ".", "a/..", "../wd/x", "../../p2/victim"} {
+	for _, n := range []string{"a", "a/b", "../x", "a/../../x", "a/../b", "./a", "a//b", "ABS:outside/newfile", "ABS:p1/p2/wd/inside", "..", ".", "a/..", "../wd/x", "../../p2/victim",
+		"../wd-backup/victim", "../wd-backup/new", "sub/../../wd-backup/victim", "ABS:p1/p2/wd-backup/victim", "../wdx", "..data", "..a/b"} {
 		runOne("named", nil, n)
 	}
 	// titles that reach the disk through duplicate restoration: content stored under a good
